@@ -11,6 +11,7 @@
  R4 loaders   : every user document read on the load path goes through load_gnpy_json.
  R5 aliases   : in both other_name loops the dict given to the constructor has type_variety set from the loop
                 variable and the alias list removed, on a per-alias copy.
+ R6 no value filter: comprehension filters in the converters are key tests, never the truthiness of the converted item.
 """
 import ast
 
@@ -518,5 +519,27 @@ def r2b_accumulators(ctx):
     ctx.need('R2.accumulate', 2, 'convert_degree.new_targets, convert_back_design_band.design_bands')
 
 
+
+def r6_no_value_filter(ctx):
+    """R6: a converter never drops a list element because of its VALUE: comprehension filters in the two converter modules are
+    key tests (membership / equality comparisons), never the truthiness of the converted item - a zero efficiency, a zero
+    offset or an empty string is data"""
+    repo = ctx.repo
+    n = 0
+    for mod in ('gnpy.tools.yang_convert_utils', 'gnpy.tools.convert_legacy_yang'):
+        m = repo.module(mod)
+        for f in list(m.functions.values()) + [g for c in m.classes.values() for g in c.all_funcs()]:
+            for comp in [x for x in ast.walk(f.node) if isinstance(x, (ast.ListComp, ast.DictComp, ast.SetComp, ast.GeneratorExp))]:
+                for g_ in comp.generators:
+                    for t in g_.ifs:
+                        n += 1
+                        parts = t.values if isinstance(t, ast.BoolOp) else [t]
+                        ok = all(isinstance(p, ast.Compare) and all(isinstance(o, (ast.In, ast.NotIn, ast.Eq, ast.NotEq, ast.Is, ast.IsNot)) for o in p.ops)
+                                 for p in parts)
+                        ctx.check('R6.no-value-filter', f'{site(f, comp)} if {ast.unparse(t)[:40]}', ok, f'{f.qual}|filter|{ast.unparse(t)[:40]}',
+                                  f'the conversion keeps an element only if `{ast.unparse(t)[:60]}` is truthy: elements whose value is 0 / empty '
+                                  'are silently dropped and the converted file no longer describes the same equipment', ast.unparse(comp)[:160])
+    ctx.need('R6.no-value-filter', 3)
+
 RULES = [('R2.accumulate', r2b_accumulators), ('R1.pairing', r1_pairing), ('R2.siblings', r2_siblings), ('R3.precision', r3_precision),
-         ('R4.loaders', r4_loaders), ('R5.aliases', r5_aliases)]
+         ('R4.loaders', r4_loaders), ('R5.aliases', r5_aliases), ('R6.no-value-filter', r6_no_value_filter)]
